@@ -234,7 +234,7 @@ def effective_access(eng, f, st):
 
 
 def check_guarded_fields(ctx, rid, cls, only_fields=None, doc=None, only_functions=None, skip_atomic=False,
-                         assume_enabled=True, reads_exclusive=False):
+                         assume_enabled=True, reads_exclusive=False, strict_atomic_stores=False):
     """A3 over every method of class template `cls`.  Emits one obligation per
     field reference.  Returns number of obligations."""
     fb, eng = ctx.fb, ctx.eng
@@ -343,7 +343,17 @@ def check_guarded_fields(ctx, rid, cls, only_fields=None, doc=None, only_functio
                 need = ent.get("w", "X")
                 guard = "this." + ent["guard"]
                 ok = pos is not None and la.holds(pos, guard, need)
-                ctx.ob(rid, ok, site, "modification of atomic %s happens with %s held" % (name, ent["guard"]),
+                if not ok and not strict_atomic_stores and pos is not None:
+                    # publish-then-lock: the flag is written first and the paired mutex is taken AFTERWARDS (to notify under
+                    # it).  A waiter checks the flag and starts waiting in one critical section of that mutex, so it either
+                    # sees the new value or is already waiting when the writer gets the mutex - no wake-up is lost.
+                    ok = any(ev[2].mutex == guard and ev[3] is True and f.reach_avoiding(tuple(pos), tuple(ev[0]), [])
+                             and not f.exits_avoiding(tuple(pos), [tuple(ev[0])]) for ev in la.acquire_events) or \
+                        (any(ev[2].mutex == guard and ev[3] is True and f.reach_avoiding(tuple(pos), tuple(ev[0]), [])
+                             for ev in la.acquire_events) and acc in ("call", "write") and
+                         user is not None and (user.get("callee") or {}).get("name") in ("exchange", "compare_exchange_strong", "compare_exchange_weak", "fetch_or"))
+                ctx.ob(rid, ok, site, "modification of atomic %s happens with %s held (or the mutex is taken right after it, before "
+                       "the waiters are notified)" % (name, ent["guard"]),
                        "" if ok else "held here: %s" % _fmt_held(la, pos), fn=top.label, inst=inst)
                 n += 1
                 continue
